@@ -137,7 +137,7 @@ def parse_directive(block):
         raise AssembleError("bad extract header: " + head)
     d = {"file": m.group(1), "impl_re": m.group(2), "kind": m.group(3), "name": m.group(4).strip(),
          "ret": None, "rename": None, "prefix": "", "body": None, "auto": True, "canary": True,
-         "rewrites": [], "contract": "", "loops": {}, "before": [], "after": [], "top": "", "sig": None,
+         "rewrites": [], "contract": "", "loops": {}, "before": [], "after": [], "top": "", "bottom": "", "after_loops": {}, "sig": None,
          "class": "prop"}
     cur = None
     buf = []
@@ -158,6 +158,10 @@ def parse_directive(block):
             d["after"].append((cur[1], txt))
         elif kind == "top":
             d["top"] = txt
+        elif kind == "bottom":
+            d["bottom"] = txt
+        elif kind == "after_loop":
+            d["after_loops"][cur[1]] = txt
         elif kind == "sig":
             d["sig"] = txt
         cur = None
@@ -186,6 +190,13 @@ def parse_directive(block):
         mm = re.match(r"loop\s+(\d+)(?:\s+iter\s+(\w+))?:\s*$", s)
         if mm:
             cur = ("loop", int(mm.group(1)), mm.group(2))
+            continue
+        mm = re.match(r"after_loop\s+(\d+):\s*$", s)
+        if mm:
+            cur = ("after_loop", int(mm.group(1)))
+            continue
+        if s == "bottom:":
+            cur = ("bottom",)
             continue
         mm = re.match(r"(before|after)\s+(" + _STR + r"):\s*$", s)
         if mm:
@@ -241,7 +252,13 @@ def inject_canary(contract):
     return c + "\n    ensures false,\n"
 
 
+_ORD = [0]
+import threading
+_LOCK = threading.Lock()
+
+
 def build_item(d, canary=False, repo=REPO):
+    _ORD[0] += 1
     path = os.path.join(repo, d["file"])
     try:
         text = open(path).read()
@@ -254,12 +271,13 @@ def build_item(d, canary=False, repo=REPO):
     log = []
     where = d["name"]
     item_text = strip_attrs_and_docs(it["text"])
-    meta = {"file": d["file"], "name": d["name"], "impl": d["impl_re"], "kind": d["kind"], "line": it["line"],
+    meta = {"ord": _ORD[0], "has_body": it["body"] is not None, "file": d["file"], "name": d["name"], "impl": d["impl_re"], "kind": d["kind"], "line": it["line"],
             "sha256": it["sha256"], "rewrites": log, "assumed": d["body"] == "opaque", "canary": d["canary"], "class": d["class"]}
     if d["kind"] != "fn":
         out = apply_rewrites(item_text, d, log, where)
         return d["prefix"] + (" " if d["prefix"] else "") + out, meta
-    # split signature / body again on the stripped text
+    # rules apply to the whole item (signature and body), then the text is split again
+    item_text = apply_rewrites(item_text, d, log, where)
     mask = code_mask(item_text)
     k = 0
     depth = 0
@@ -286,29 +304,38 @@ def build_item(d, canary=False, repo=REPO):
         log.append({"rule": "SIG", "fn": where, "from": sig, "to": d["sig"].strip(), "reason": "signature replaced by unit"})
         sig = d["sig"].strip()
     else:
-        sig = apply_rewrites(sig, {"auto": d["auto"], "rewrites": []}, log, where + "(sig)")
-        # unit-local rewrites that hit the signature only
         if d["ret"]:
             sig = name_return(sig, d["ret"])
         if d["rename"]:
             sig = re.sub(r"\bfn\s+%s\b" % re.escape(d["name"]), "fn " + d["rename"], sig, count=1)
             log.append({"rule": "RENAME", "fn": where, "from": d["name"], "to": d["rename"]})
     contract = d["contract"]
-    if canary and d["canary"]:
-        contract = inject_canary(contract)
+    canary_here = False
+    if canary and d["canary"] and body is not None and d["body"] != "opaque":
+        if canary == "top":
+            canary_here = True
+        elif isinstance(canary, str) and canary.startswith("ensures:"):
+            # only the item whose ordinal matches gets `ensures false` (callers keep the real contract of every other fn)
+            if int(canary.split(":")[1]) == _ORD[0]:
+                contract = inject_canary(contract)
+                meta["canary_target"] = True
     if d["body"] == "opaque" or body is None:
         out = "#[verifier::external_body]\n" + d["prefix"] + (" " if d["prefix"] else "") + sig + "\n" + contract.rstrip() + "\n{ unimplemented!() }\n"
         if body is None and d["body"] != "opaque":
             # trait method declaration: keep as declaration with contract
             out = d["prefix"] + (" " if d["prefix"] else "") + sig + "\n" + contract.rstrip() + ";\n"
         return out, meta
-    body = apply_rewrites(body, d, log, where)
     # loops: insert from the last to the first so offsets stay valid
     loops = find_loops(body)
-    for n in sorted(d["loops"].keys(), reverse=True):
+    for n in sorted(set(d["loops"].keys()) | set(d["after_loops"].keys()), reverse=True):
         if n < 1 or n > len(loops):
             raise AssembleError("loop %d anchor lost in %s: function has %d loops" % (n, where, len(loops)))
-        lp = loops[n - 1]
+        lp = find_loops(body)[n - 1]  # recomputed: earlier insertions (inner loops) shift later offsets
+        if n in d["after_loops"]:
+            e = lp["end_pos"] + 1
+            body = body[:e] + "\n" + d["after_loops"][n].rstrip() + "\n" + body[e:]
+        if n not in d["loops"]:
+            continue
         spec = d["loops"][n]
         ins = "\n" + spec["text"].rstrip() + "\n"
         body = body[:lp["brace_pos"]] + ins + body[lp["brace_pos"]:]
@@ -332,14 +359,23 @@ def build_item(d, canary=False, repo=REPO):
             raise AssembleError("anchor lost in %s: %r occurs %d times" % (where, anchor, n))
         p = body.index(anchor) + len(anchor)
         body = body[:p] + "\n" + txt.rstrip() + "\n" + body[p:]
+    if d["bottom"]:
+        e = body.rstrip().rfind("}")
+        body = body[:e] + "\n" + d["bottom"].rstrip() + "\n" + body[e:]
     if d["top"]:
         body = "{\n" + d["top"].rstrip() + "\n" + body[1:]
+    if canary_here:
+        body = "{\n proof { assert(false); } // canary: must FAIL (requires satisfiable)\n" + body[1:]
     out = d["prefix"] + (" " if d["prefix"] else "") + sig + "\n" + contract.rstrip() + "\n" + body + "\n"
     return out, meta
 
 
 def assemble(unit_path, canary=False, repo=REPO):
-    """returns (text, info) ; info = {items:[meta + line range], includes:[...]}"""
+    """returns (text, info) ; info = {items:[meta + line range], includes:[...]}
+    canary: False | "top" (assert(false) at the top of every contracted body) | "ensures:<n>" (n-th item gets `ensures false`)"""
+    with _LOCK:
+        _ORD[0] = 0
+        return assemble_text(open(unit_path).read(), canary, repo, 1)
     return assemble_text(open(unit_path).read(), canary, repo, 1)
 
 
